@@ -28,6 +28,9 @@ CLAIMED = {
  'C16': dict(text='Two-run differential decided by the solver: each operation skeleton (appends, batches, rejected operations, reads, restarts) is interpreted under the FD/io_uring back end and under the mmap back end inside one symbolic path with the same size/budget variables; z3 must show every observation (results, error kinds, returned entries, counts) equal.',
              note=ENGINE_NOTE + ' The real kernel io_uring/mmap are exercised only in the native replays of both back ends in separate processes.',
              technique='source-level symbolic execution, product of two runs with shared symbolic inputs (z3), native replay of both back ends', ref='7/C16'),
+ 'C17': dict(text='Bounded symbolic model checking of the real marker code (TopicCleanTracker, TopicCleanState, CleanMarkerStore, Walrus::mark_*/append, Drop): every history of <= 3 (quick) / 5 (thorough) operations from {append, mark_topic_clean, mark_topic_dirty}; the in-memory clause is checked after every call; for the restart clause the persister closure spawned by the source is a model thread that either completes a pass before the instance is dropped or never runs, then the instance is dropped (Drop impls from the source) and reopened in a fresh process.',
+             note=ENGINE_NOTE + ' Only two persister schedules are explored (complete pass / no step); replays repeat the real drop-and-reopen up to 10 times because the native window is timing dependent.',
+             technique='source-level symbolic execution with the persister as a scheduled model thread (z3 decides the driver choices), native replay', ref='7/C17'),
  'C18': dict(text='Bounded symbolic model checking of the real Metadata::apply: every command sequence up to length 3-4 (quick) / 4-6 (thorough) over {create, rollover, upsert, undecodable bytes} x topics {a,b} x leaders 1..3 with sealed counts as 64-bit solver variables; after every step z3 decides the four invariants (segments 1..current with one leader each, open segment leader = topic leader, sealed (count, leader) pairs immutable, cumulative offset = sum of sealed counts) and the no-panic obligation (release semantics; the debug-profile overflow obligation is explored separately).',
              note='Trusted: AST dump, interpreter, HashMap/RwLock models, bincode modelled as a total decode function (real bincode cannot be built offline). Replay runs the real metadata.rs compiled against two scaffolding shims (octopii trait, JSON-backed bincode). Longer sequences are outside the claim.',
              technique='source-level symbolic execution (z3 bit-vectors), native replay through a shim harness', ref='7/C18'),
